@@ -627,6 +627,21 @@ def bitsExBEField : Field → Bool
   | _ => false
 end
 
+/-- a typedef instance returns the value of its only field (size rounded like `__len__`) -/
+def finishTypedef (packed : Bool) (A : Nat) :
+    Option (Val × Nat × Bytes × Bool) → Option (Val × Nat × Bytes × Bool)
+  | some (v, sz, m, c) => some (v, padTail packed A sz, m ++ zeros (padTail packed A sz - sz), c)
+  | none => none
+
+/-- the instance a struct/union `unpack` returns: namespace, `len()`, mask, flag -/
+def finishAgg (ps : Nat) (isUnion packed : Bool) (fs : List Field) :
+    Option (NS × List (Val × Nat × Bytes × Bool)) → Option (Val × Nat × Bytes × Bool)
+  | some (ns, res) =>
+    let A := if packed then 1 else maxList (alignVs ps fs)
+    let len := padTail packed A (lenLoop ps isUnion packed fs (res.map (fun r => some r.2.1)) 0)
+    some (.inst ns len, len, assemble isUnion packed A (zipAligns ps fs (res.map (·.2.2.1))), res.all (·.2.2.2))
+  | none => none
+
 mutual
 /-- `f.unpack(data, pos, psize)` followed by `f.size(psize)`: value, size, mask -/
 def unpackField (ps : Nat) (data : Bytes) (pos : Nat) (ns : NS) : Field → Option (Val × Nat × Bytes × Bool)
@@ -657,25 +672,17 @@ def unpackField (ps : Nat) (data : Bytes) (pos : Nat) (ns : NS) : Field → Opti
        | none => none)
     | _ => none
 /-- `cls().unpack(data, pos, psize)`: value (the instance, or the field value for a typedef),
-    `len()` of the result, mask -/
+    `len()` of the result, mask, flag -/
 def unpackDef (ps : Nat) (data : Bytes) (pos : Nat) : Def → Option (Val × Nat × Bytes × Bool)
-  | .mk kind packed fs =>
-    let A := if packed then 1 else maxList (alignVs ps fs)
-    match kind with
-    | .typedef =>
+  | .mk .typedef packed fs =>
+    finishTypedef packed (if packed then 1 else maxList (alignVs ps fs))
       (match fs with
-       | f :: _ =>
-         (match unpackField ps data pos [] f with
-          | some (v, sz, m, c) => some (v, padTail packed A sz, m ++ zeros (padTail packed A sz - sz), c)
-          | none => none)
+       | f :: _ => unpackField ps data pos [] f
        | [] => none)
-    | _ =>
-      match unpackFields ps data pos (kind == .union) packed fs 0 [] with
-      | some (ns, res) =>
-        let len := padTail packed A (lenLoop ps (kind == .union) packed fs (res.map (fun r => some r.2.1)) 0)
-        some (.inst ns len, len, assemble (kind == .union) packed A (zipAligns ps fs (res.map (·.2.2.1))),
-              res.all (·.2.2.2))
-      | none => none
+  | .mk .struct packed fs =>
+    finishAgg ps false packed fs (unpackFields ps data pos false packed fs 0 [])
+  | .mk .union packed fs =>
+    finishAgg ps true packed fs (unpackFields ps data pos true packed fs 0 [])
 /-- the `for f in self.fields` loop of `StructCore.unpack` (field alignment relative to the start
     `base` of the structure); result: namespace and, per field, (value, size, mask) -/
 def unpackFields (ps : Nat) (data : Bytes) (base : Nat) (isUnion packed : Bool) :
@@ -836,10 +843,10 @@ mutual
     typedefs of a single scalar, array or previously defined type -/
 def Field.wf (ps : Nat) : Field → Bool
   | .bits t _ names sizes =>
-    names.length == sizes.length && (t.enc == .sint || t.enc == .uint) &&
+    names.length == sizes.length && decide names.Nodup && (t.enc == .sint || t.enc == .uint) &&
       (t.enc != .sint || decide (coveredBits names sizes < 8 * rawSize ps t))
   | .bitsEx ty names sizes =>
-    ty.wf ps && names.length == sizes.length &&
+    ty.wf ps && names.length == sizes.length && decide names.Nodup &&
       (match intChain ty with
        | some (t, _) => t.enc != .sint || decide (coveredBits names sizes < 8 * rawSize ps t)
        | none => false)
